@@ -249,6 +249,11 @@ class Gen:
     def use_of(self, x, et, depth, bound):
         v = ('var', x)
         if et == NUM:
+            if self.rng.random() < 0.15:
+                # the variable used as an index: the body (or a conjunct of it) is a bare accessor, no operator around it
+                arr = self.ref(('arr', BOOL), {k: t for k, t in bound.items() if k != x})
+                if arr is not None:
+                    return ('index', arr, v)
             return ('bin', self.rng.choice(REL + ['=', '!=']), v, self.num(max(0, depth - 1), bound))
         if et == BOOL:
             return v if self.rng.random() < 0.5 else ('un', 'not', v)
